@@ -7,6 +7,7 @@
 (*  {"ev":"out","ver":V,"enc":E,"l":OUT,"r":OUT}  generated output, inline   *)
 (*        datum in wire variant E; OUT has dhash (= H[dwire] on the ledger   *)
 (*        side) and dwire (wire bytes / Datum.original_cbor)                 *)
+(*  {"ev":"mint","ver":V,"l":INT,"rpc":INT}  mint amount of a generated tx    *)
 (*  {"ev":"tx","ver":V,"src":FILE,"l":TX,"r":TX}                             *)
 (*  {"ev":"block","ver":V,"src":FILE,"l":HDR,"r":HDR}                        *)
 (*  {"ev":"panic",...}   a panic inside the mapper: matched by no action     *)
@@ -68,5 +69,12 @@ TBlock ==
     /\ Rec[l].l = Rec[l].r
     /\ UNCHANGED hm
 
-TNext == TInt \/ TDatum \/ TOut \/ TTx \/ TBlock
+\* mint amounts are not among the fields C44 lists: compared, never rejected
+TMint ==
+    /\ IsEvent("mint")
+    /\ IF IsInt(Rec[l].rpc) /\ Exact(Rec[l].l, Rec[l].rpc) THEN TRUE
+       ELSE PrintT(<<"DRIFT", l, "mint amount", Rec[l].l, "impl", Rec[l].rpc>>)
+    /\ UNCHANGED <<arg, res, hm>>
+
+TNext == TInt \/ TDatum \/ TOut \/ TTx \/ TBlock \/ TMint
 =============================================================================
